@@ -43,20 +43,6 @@ func coherent(tag string, d *model.DecisionMakingParams) {
 	}
 }
 
-func findAlt(d *model.DecisionMakingParams, id string) *model.AlternativeWithCriteria {
-	for i := range d.ConsideredAlternatives {
-		if d.ConsideredAlternatives[i].Id == id {
-			return &d.ConsideredAlternatives[i]
-		}
-	}
-	for i := range d.NotConsideredAlternatives {
-		if d.NotConsideredAlternatives[i].Id == id {
-			return &d.NotConsideredAlternatives[i]
-		}
-	}
-	return nil
-}
-
 // rewrites: which existing values a bias variant may deliberately change
 func rewritesAllValues(variant string) bool { return variant == "fatigue" || variant == "anchoring" }
 
@@ -155,16 +141,6 @@ func c07opts(method string, variants []string) ReqOpts {
 		o.Considered = o.A - 1
 	}
 	return o
-}
-
-func c07known(method string, variants []string) {
-	owaAdd := false
-	for _, v := range variants {
-		if method == "owa" && AddsCriterion(v) {
-			owaAdd = true
-		}
-	}
-	rt.KnownFinding("KF_C07_owa_add_criterion_type_mismatch", owaAdd)
 }
 
 //verif:harness HC07_compose_L1 mode=REAL reach=fired,evaluate-returned,criterion-added
